@@ -12,6 +12,7 @@ package state_test
 // timeout alone.
 
 import (
+	"fmt"
 	"time"
 
 	"github.com/hashicorp/consul/agent/blockingquery"
@@ -120,7 +121,7 @@ func (m *verifC06Machine) loop(qi int, op *vs.Op, storeLevelFailed bool) {
 			c.Label("loop:confirms-missed-change")
 		} else {
 			c.Label("loop:timeout-unconfirmed")
-			f.Logf("C06 loop: %s around %q did not return within 200ms although the store-level implication held (not a verdict)", q.Name, op.Desc)
+			fmt.Printf("C06 loop (not a verdict): %s around %q did not return within 200ms although the store-level implication held\n", q.Name, op.Desc)
 		}
 		close(srv.shutdown)
 		<-done
